@@ -31,7 +31,7 @@ pub fn judge_tx(ctx: &mut Ctx, w: &World, st: &St, t: &PTx, what: &dyn Fn() -> S
     let mut langs: BTreeSet<u8> = t.plutus_scripts.iter().map(|(l, _)| *l).collect();
     for (i, variant) in &st.m.inputs {
         if let Owner::Plutus(p) = &w.utxos[*i].0.owner {
-            if *variant == 1 || *variant == 3 {
+            if *variant == 1 || *variant == 3 || *variant == 4 {
                 langs.insert(match w.plutus[*p].language_version().kind() {
                     LanguageKind::PlutusV1 => 1,
                     LanguageKind::PlutusV2 => 2,
